@@ -55,7 +55,7 @@ class World(StackWorld):
                 "initial_retry_delay": ch.pick((1.5, 0.5, 0.01), "ird%d" % i),
                 "retry_delay_growth": ch.pick((1.5, 1.0, 3.0), "growth%d" % i),
                 "retry_delay_jitter": ch.pick((0.1, 0.0, 0.5), "jitter%d" % i, (3, 2, 1)),
-                "max_retry_delay": ch.pick((300, 1.0, 2.0, 0.2), "max_delay%d" % i, (2, 2, 2, 1)),
+                "max_retry_delay": ch.pick((300, 1.0, 2.0, 0.2, 0.875, 2.718, 0.375), "max_delay%d" % i, (2, 2, 2, 1, 1, 1, 1)),
             }
             self.tspec.append(spec)
             t = {"type": kind, "max_retries": spec["max_retries"], "initial_retry_delay": spec["initial_retry_delay"],
